@@ -3,6 +3,7 @@
 ID=$1; shift
 P=/verif/seeded/$ID/patch.diff; [ -f $P ] || P=/tmp/seed-$ID/patch.diff
 cd /repo && git apply $P || { echo "patch does not apply"; exit 2; }
+export VERIF_EVIDENCE_DIR=/verif/target/campaign-evidence-seed; mkdir -p $VERIF_EVIDENCE_DIR
 cd /verif
 for c in "$@"; do
   echo "=== seed $ID check $c"
